@@ -55,7 +55,10 @@ Proof. unfold get_ev. destruct v; auto. Qed.
 Definition opn (x : var) (s : store) : Prop := 0 < npulls x s /\ ended x s = false.
 Definition bef (y x : var) (s : store) : Prop :=
   exists s1 s2, s = s2 ++ s1 /\ npulls x s1 = 0 /\ 1 <= npulls y s1.
-Definition J (s : store) : Prop := forall x, ended x s = true -> exists y, bef y x s /\ 2 <= npulls y s.
+(* [xmt x s]: x was already exhausted when the second pass of some Union began *)
+Definition xmt (x : var) (s : store) : Prop := exists s2 s1, s = s2 ++ Pass :: s1 /\ ended x s1 = true.
+Definition J (s : store) : Prop :=
+  forall x, ended x s = true -> xmt x s \/ exists y, bef y x s /\ 2 <= npulls y s.
 Definition AllY (s : store) : Prop := forall s2 r s1, s = s2 ++ Yield r :: s1 -> J s1.
 Definition OB (b : binds) (s : store) : Prop := forall x, opn x s -> bound b x = true.
 Definition Pre (b : binds) (s : store) : Prop := OB b s /\ J s /\ AllY s.
@@ -78,10 +81,13 @@ Proof. unfold opn. intros H. destruct (npulls x s) as [|n]; auto. destruct (ende
 Lemma bef_Ext y x s s' : Ext s s' -> bef y x s -> bef y x s'.
 Proof. intros [l ->] (s1 & s2 & -> & H1 & H2). exists s1, (l ++ s2). split; [now rewrite app_assoc | auto]. Qed.
 
+Lemma xmt_Ext x s s' : Ext s s' -> xmt x s -> xmt x s'.
+Proof. intros [l ->] (s2 & s1 & -> & H). exists (l ++ s2), s1. split; [now rewrite app_assoc | auto]. Qed.
 Lemma J_Ext_same s s' : Ext s s' -> (forall x, ended x s' = ended x s) -> J s -> J s'.
 Proof.
-  intros E He H x Hx. rewrite He in Hx. destruct (H x Hx) as [y [Hb Hn]].
-  exists y. split; [eapply bef_Ext; eauto|]. pose proof (npulls_Ext y _ _ E). lia.
+  intros E He H x Hx. rewrite He in Hx. destruct (H x Hx) as [Hm|[y [Hb Hn]]].
+  - left. eapply xmt_Ext; eauto.
+  - right. exists y. split; [eapply bef_Ext; eauto|]. pose proof (npulls_Ext y _ _ E). lia.
 Qed.
 
 Lemma AllY_nil : AllY [].
@@ -188,9 +194,10 @@ Section Demand.
           destruct (opn_dec y s) as [Ho|Hn]; [apply HOB; auto|].
           exfalso. destruct (Oth y N) as [_ O2]. apply (O2 Hn). split; auto.
         - intros z Hz. rewrite F4 in Hz. destruct (Endd z Hz) as [Hs | (Hi & Hzx & Hzn)].
-          + destruct (HJ z Hs) as [y [Hb Hn]]. exists y. split; [eapply bef_Ext; eauto|].
+          + destruct (HJ z Hs) as [Hm|[y [Hb Hn]]]; [left; eapply xmt_Ext; eauto|].
+            right. exists y. split; [eapply bef_Ext; eauto|].
             pose proof (npulls_Ext y _ _ F1s). lia.
-          + exists x. split; [|lia].
+          + right. exists x. split; [|lia].
             destruct (E1 Hi) as [l0 Hl0]. destruct F1 as [l1 Hl1].
             exists (touch x 0 s), (l1 ++ l0). split; [|split].
             * rewrite Hl1, Hl0. now rewrite app_assoc.
@@ -278,7 +285,23 @@ Section Demand.
     - apply IH; auto. intros p s0 H0. eapply Good_shift; [apply Post_get|]. apply Hk. apply Pre_get; auto.
   Qed.
 
-  Lemma cond_good c : union_free c = true -> forall b (k : res -> store -> store * signal) s,
+  Lemma Post_plain e s : (forall x, is_pull x e = false) -> (forall x, is_end x e = false) -> is_yield e = false ->
+    Post s (e :: s).
+  Proof.
+    intros H1 H2 H3. apply Post_same; [apply Ext_cons | | | apply AllY_nonyield; auto].
+    - intros x. rewrite npulls_cons, H1. reflexivity.
+    - intros x. rewrite ended_cons, H2. reflexivity.
+  Qed.
+  Lemma Pre_plain b e s : (forall x, is_pull x e = false) -> (forall x, is_end x e = false) -> is_yield e = false ->
+    Pre b s -> Pre b (e :: s).
+  Proof.
+    intros H1 H2 H3 (HOB & HJ & HA). split; [|split].
+    - intros x [Hx1 Hx2]. apply HOB. rewrite npulls_cons, H1 in Hx1. rewrite ended_cons, H2 in Hx2. split; auto.
+    - apply (J_Ext_same s); auto; [apply Ext_cons | intros x; rewrite ended_cons, H2; reflexivity].
+    - apply AllY_nonyield; auto.
+  Qed.
+
+  Lemma cond_good c : forall_free c = true -> forall b (k : res -> store -> store * signal) s,
     Pre b s -> (forall r s0, Pre (fst r) s0 -> Good s0 (k r s0)) -> Good s (tr_cond W D c b k s).
   Proof.
     induction c as [op l r|l IHl r IHr|l IHl r IHr|l IHl r IHr|c IH|e c IH|y c IH]; intros Hu b k s HPre Hk;
@@ -286,7 +309,24 @@ Section Demand.
     - destruct (right_first b r); apply opnd_good; auto; intros p1 s1 H1; apply opnd_good; auto.
     - apply IHl; auto. intros p s1 H1. destruct (snd p); [apply Hk; auto | apply IHr; auto].
     - apply IHl; auto. intros p s1 H1. destruct (snd p); [apply IHr; auto | apply Hk; auto].
+    - (* Union: the first pass as ElseIf; when the second pass begins whatever is exhausted is exempt *)
+      apply Good_andthen.
+      + apply IHl; auto. intros p s1 H1. destruct (snd p); [apply IHr; auto | apply Hk; auto].
+      + intros s1 HP. eapply Good_shift; [apply (Post_plain Pass); reflexivity|].
+        apply IHr; auto.
+        * destruct HPre as (HOB & HJ & HA). destruct HP as (PE & PA & PB & PC). split; [|split].
+          -- intros x [Hx1 Hx2]. rewrite npulls_cons in Hx1. simpl in Hx1. rewrite ended_cons in Hx2. simpl in Hx2.
+             destruct (opn_dec x s) as [Ho|Hn]; [apply HOB; auto|]. exfalso. apply (PB x Hn). split; auto.
+          -- intros x Hx. left. exists [], s1. split; [reflexivity | exact Hx].
+          -- apply AllY_nonyield; auto.
+        * intros p s2 H2. destruct (snd p); [apply Good_ret | apply Hk; auto].
     - apply IH; auto.
+    - (* Exists: a filter over the condition's results *)
+      eapply Good_shift; [apply (Post_plain (Frame (length s))); reflexivity|].
+      apply IH; auto; [apply Pre_plain; auto|].
+      intros p s1 H1. destruct (snd p); [apply Good_ret|]. destruct (existsb _ _); [apply Good_ret|].
+      eapply Good_shift; [apply (Post_plain (Note (length s) (map (lookup (fst p)) (exists_others e c)))); reflexivity|].
+      apply Hk. apply Pre_plain; auto.
   Qed.
 
   (* the consumers: they log the row and nothing else *)
@@ -331,8 +371,10 @@ Qed.
 
 Lemma J_demand_at s : J s -> demand_at (rev s).
 Proof.
-  intros H x Hx. rewrite ended_rev in Hx. destruct (H x Hx) as [y [(s1 & s2 & -> & H1 & H2) Hn]].
-  exists y. split; [|now rewrite npulls_rev].
+  intros H x Hx. rewrite ended_rev in Hx. destruct (H x Hx) as [(s2 & s1 & -> & Hm)|[y [(s1 & s2 & -> & H1 & H2) Hn]]].
+  { left. apply exempt_iff. exists (rev s1), (rev s2). split; [|now rewrite ended_rev].
+    rewrite rev_app_distr. simpl. now rewrite <- app_assoc. }
+  right. exists y. split; [|now rewrite npulls_rev].
   unfold before. rewrite rev_app_distr, upto_first_app by (now rewrite npulls_rev).
   apply Nat.leb_le. rewrite npulls_app, npulls_rev. lia.
 Qed.
